@@ -77,3 +77,49 @@ def outcome(thunk):
         return ('ok', thunk())
     except Exception as e:          # noqa: BLE001
         return ('exn', exn_name(e))
+
+
+class Obj(object):
+    """an unsupported object"""
+    pass
+
+
+def enc(v):
+    """JSON-able encoding of an assigned value (replay files)."""
+    if isinstance(v, Obj):
+        return {'t': 'obj'}
+    if v is None:
+        return {'t': 'none'}
+    if type(v) is bool:
+        return {'t': 'bool', 'v': v}
+    if type(v) is int:
+        return {'t': 'int', 'v': str(v)}
+    if type(v) is float:
+        return {'t': 'float', 'v': v.hex()}
+    if type(v) is str:
+        return {'t': 'str', 'v': v}
+    if isinstance(v, np.integer):
+        return {'t': 'np', 'dtype': v.dtype.name, 'v': str(int(v))}
+    if isinstance(v, np.floating):
+        return {'t': 'np', 'dtype': v.dtype.name, 'v': float(v).hex()}
+    raise AssertionError(v)
+
+
+def dec(d):
+    t = d['t']
+    if t == 'obj':
+        return Obj()
+    if t == 'none':
+        return None
+    if t == 'bool':
+        return bool(d['v'])
+    if t == 'int':
+        return int(d['v'])
+    if t == 'float':
+        return float.fromhex(d['v'])
+    if t == 'str':
+        return d['v']
+    if t == 'np':
+        ty = getattr(np, d['dtype'])
+        return ty(float.fromhex(d['v'])) if d['dtype'].startswith('float') else ty(int(d['v']))
+    raise AssertionError(d)
